@@ -52,6 +52,7 @@ func init() {
 			in := recvPred("level", "PaletteContainer", "singleValuePalette", "linearPalette", "hashPalette", "globalPalette", "BitStorage", "statesCfg", "biomesCfg")
 			obs = append(obs, c.TLGObs(in, in, false)...)
 			obs = append(obs, c.PaletteResizeCopiesAll()...)
+			obs = append(obs, c.PaletteConfig()...)
 			return obs
 		},
 	}
@@ -65,6 +66,7 @@ func init() {
 			obs = append(obs, c.TLGObs(in, in, false)...)
 			obs = append(obs, c.SetBlockCounter()...)
 			obs = append(obs, c.HeightMapBits()...)
+			obs = append(obs, c.HeightMapKeys()...)
 			obs = append(obs, c.PaletteResizeCopiesAll()...)
 			return obs
 		},
@@ -72,7 +74,10 @@ func init() {
 	Props["C17"] = PropDef{
 		Explanation: "R-WIRESYM for chat.Type, chat.Message, chat.JsonMessage (packet-field adapters agree; the chat-type header reader does not manufacture an error). Not decided: equality after a round trip, rendering.",
 		Run: func(c *Ctx) []core.Ob {
-			return c.wireObs(func(p, t string) bool { return p == "chat" })
+			obs := c.wireObs(func(p, t string) bool { return p == "chat" })
+			obs = append(obs, filterObs(c.MarshalerContract(), func(o core.Ob) bool { return strings.HasPrefix(o.Key, "chat") })...)
+			obs = append(obs, c.TagDispatch("chat")...)
+			return obs
 		},
 	}
 	Props["C19"] = PropDef{
